@@ -6,9 +6,13 @@ package hxtimers
 
 import (
 	"fmt"
+	"reflect"
+	"runtime"
 	"sort"
 	"strconv"
 	"strings"
+	"time"
+	"unsafe"
 
 	"verifharness/hxlib"
 
@@ -31,7 +35,7 @@ func (o Op) String() string {
 		return o.K
 	}
 	s := o.K + " " + strconv.FormatInt(o.A, 10)
-	if o.K == "ftick" {
+	if o.K == "ftick" || o.K == "ladvance" {
 		for _, ops := range o.Sub {
 			s += " ["
 			for i, x := range ops {
@@ -46,12 +50,28 @@ func (o Op) String() string {
 	return s
 }
 
+// Short is String without the client ops of a fine-grained tick / live burst.
+func (o Op) Short() string {
+	if len(o.Sub) > 0 {
+		return fmt.Sprintf("%s %d [client ops at %d schedule points]", o.K, o.A, len(o.Sub))
+	}
+	return o.String()
+}
+
 // Case is one history on a fresh scheduler.
 type Case struct {
 	Sched string `json:"sched"` // wheel | heap
 	Pos   uint32 `json:"pos"`   // wheel: tick position at start
 	Time  int64  `json:"time"`  // virtual time at start
 	Ops   []Op   `json:"ops"`
+	// Live (failing-input search only): `advance` / `ladvance` run the worker's burst on a goroutine of its own, C
+	// has capacity Cbuf, and the goroutine of the harness is the slow consumer of Chan() (and the client).
+	Live bool `json:"live,omitempty"`
+	Cbuf int  `json:"cbuf,omitempty"`
+	// NextID > 0: the id counter of the fresh scheduler is pre-positioned (stands for that many earlier starts)
+	NextID int64 `json:"nextid,omitempty"`
+	// Search != nil: the history is not listed; it is regenerated from this recipe (long search legs)
+	Search *Spec `json:"search,omitempty"`
 }
 
 func (c Case) Header() string {
@@ -85,10 +105,14 @@ type Real struct {
 	Dead   bool  // a panic happened: the instance is not used any further
 	CapC   int
 	capReq int
+	Live   bool
+	PrePositioned bool // Case.NextID was applied
+	// Watchdog > 0: every op runs under a deadline (a tick that never returns is a finding, not a stuck harness)
+	Watchdog time.Duration
 }
 
 func NewReal(c Case, cbuf int) *Real {
-	r := &Real{c: c, CapC: cbuf, capReq: sched.PendingQueueCapacity}
+	r := &Real{c: c, CapC: cbuf, capReq: sched.PendingQueueCapacity, Live: c.Live}
 	if c.Sched == "wheel" {
 		r.w = sched.NewVerifWheel(cbuf)
 		r.w.SetPosition(c.Pos)
@@ -99,7 +123,49 @@ func NewReal(c Case, cbuf int) *Real {
 		r.q.SetTime(c.Time)
 		r.d, r.t = r.q, r.q.Q
 	}
+	if c.NextID > 0 {
+		var target interface{} = r.t
+		r.PrePositioned = setIntField(target, "nextId", c.NextID)
+	}
 	return r
+}
+
+// setIntField pre-positions an unexported integer field of the scheduler (the id counter): the state a fresh
+// scheduler is in after that many starts, without making them. false = no such field (the leg is skipped).
+func setIntField(ptr interface{}, name string, v int64) (ok bool) {
+	defer func() {
+		if recover() != nil {
+			ok = false
+		}
+	}()
+	rv := reflect.ValueOf(ptr)
+	if rv.Kind() != reflect.Ptr || rv.Elem().Kind() != reflect.Struct {
+		return false
+	}
+	f := rv.Elem().FieldByName(name)
+	if !f.IsValid() || !f.CanAddr() {
+		return false
+	}
+	p := unsafe.Pointer(f.UnsafeAddr())
+	switch f.Kind() {
+	case reflect.Int, reflect.Int64:
+		if f.Type().Size() != 8 {
+			return false
+		}
+		*(*int64)(p) = v
+	case reflect.Int32:
+		*(*int32)(p) = int32(v)
+	case reflect.Uint32:
+		*(*uint32)(p) = uint32(v)
+	case reflect.Uint, reflect.Uint64:
+		if f.Type().Size() != 8 {
+			return false
+		}
+		*(*uint64)(p) = uint64(v)
+	default:
+		return false
+	}
+	return true
 }
 
 func (r *Real) Close() {
@@ -153,7 +219,8 @@ type Obs struct {
 	N      int   // size
 	Fired  []int // advance: ids in delivery order
 	Panic  string
-	Refuse bool // the harness did not run the op (it would block the synchronous driver)
+	Hang   string // the op did not return within the watchdog's (generous) deadline; the instance is abandoned
+	Refuse bool   // the harness did not run the op (it would block the synchronous driver)
 }
 
 // doInner runs a client op from inside a schedule-point callback (a panic propagates to the tick's Guard).
@@ -195,6 +262,23 @@ func (r *Real) doInner(o Op) Obs {
 
 // Do runs one op on the real code and returns the canonical answer line.
 func (r *Real) Do(o Op) Obs {
+	if r.Watchdog <= 0 || r.Dead {
+		return r.do(o)
+	}
+	ch := make(chan Obs, 1)
+	go func() { ch <- r.do(o) }()
+	tm := time.NewTimer(r.Watchdog)
+	defer tm.Stop()
+	select {
+	case ob := <-ch:
+		return ob
+	case <-tm.C:
+		r.Dead = true
+		return Obs{Out: "hang", Hang: fmt.Sprintf("no answer within %v", r.Watchdog)}
+	}
+}
+
+func (r *Real) do(o Op) Obs {
 	var ob Obs
 	if r.Dead {
 		ob.Out, ob.Refuse = "dead", true
@@ -266,7 +350,17 @@ func (r *Real) Do(o Op) Obs {
 				}
 			}
 			ob.Out = "fired=" + r.idsOf(ser)
+		case "ladvance":
+			if !r.Live {
+				ob.Out, ob.Refuse = "bad-op", true
+				return
+			}
+			r.liveBurst(o, &ob)
 		case "advance":
+			if r.Live {
+				r.liveBurst(o, &ob)
+				return
+			}
 			if r.w != nil {
 				r.w.Advance(o.A)
 			} else {
@@ -306,7 +400,119 @@ func (r *Real) Do(o Op) Obs {
 		ob.Out = "panic"
 		r.Dead = true
 	}
+	if ob.Hang != "" {
+		r.Dead = true
+	}
 	return ob
+}
+
+// liveBurst runs the worker's burst (wheel: o.A ticks; heap: o.A units pass, then one tick) on a goroutine of its
+// own. This goroutine is the consumer of Chan(): it takes ONE delivery, and only when Chan() is full and the burst
+// has made no progress for a moment (the worker stands in its blocking send, or has nothing more to send). At the
+// k-th such moment it first plays the client: o.Sub[k] (`stall n` = hold still for n ms, the stalled consumer).
+// Timing decides only where the client ops fall, never what the oracle accepts.
+func (r *Real) liveBurst(o Op, ob *Obs) {
+	c := r.t.Chan()
+	done := make(chan string, 1)
+	go func() {
+		done <- hxlib.Guard(func() {
+			if r.w != nil {
+				r.w.Advance(o.A)
+			} else {
+				r.q.Advance(o.A)
+				r.q.Tick()
+			}
+		})
+	}()
+	var ser []int
+	take := func(x sched.Runnable) {
+		if p, ok := x.(*probe); ok {
+			ser = append(ser, p.serial)
+		} else {
+			ser = append(ser, -1)
+		}
+	}
+	settle := 150 * time.Microsecond
+	lastProgress := time.Now()
+	k := 0
+	finished, pan := false, ""
+	for !finished {
+		select {
+		case pan = <-done:
+			finished = true
+			continue
+		default:
+		}
+		if len(c) < cap(c) {
+			if time.Since(lastProgress) > 20*time.Second {
+				ob.Hang = fmt.Sprintf("the burst neither ended nor filled Chan() (capacity %d, %d queued) within 20 s; %d deliveries received", cap(c), len(c), len(ser))
+				break
+			}
+			runtime.Gosched()
+			continue
+		}
+		// full: let the worker run into its send (or end the burst)
+		t0 := time.Now()
+		for time.Since(t0) < settle && !finished {
+			select {
+			case pan = <-done:
+				finished = true
+			default:
+				runtime.Gosched()
+			}
+		}
+		if finished {
+			break
+		}
+		st := YieldStep{Point: "block", ID: len(ser)}
+		if k < len(o.Sub) {
+			for _, co := range o.Sub[k] {
+				switch co.K {
+				case "stall":
+					time.Sleep(time.Duration(co.A) * time.Millisecond)
+				case "after", "every", "cancel", "size", "sched":
+					var cob Obs
+					if p := hxlib.Guard(func() { cob = r.doInner(co) }); p != "" {
+						cob.Panic, cob.Out = p, "panic"
+					}
+					st.Ops = append(st.Ops, co)
+					st.Obs = append(st.Obs, cob)
+				}
+			}
+		}
+		k++
+		if len(st.Ops) > 0 {
+			ob.Steps = append(ob.Steps, st)
+		}
+		select {
+		case x := <-c:
+			take(x)
+			lastProgress = time.Now()
+		default:
+		}
+	}
+	if ob.Hang == "" {
+		for {
+			select {
+			case x := <-c:
+				take(x)
+				continue
+			default:
+			}
+			break
+		}
+	}
+	if pan != "" {
+		panic(pan)
+	}
+	for _, s := range ser {
+		if s >= 0 && s < len(r.ids) {
+			ob.Fired = append(ob.Fired, r.ids[s])
+		} else {
+			ob.Fired = append(ob.Fired, -1)
+		}
+	}
+	ob.Out = "fired=" + r.idsOf(ser)
 }
 
 // links: where the back end holds which timer (ids sorted per level; heap: one level).
